@@ -183,7 +183,32 @@ def _desc(layout, **kw):
 
 UNTRACE = [('kernpy.core.exporter', 'Exporter.export_token'), ('kernpy.core.tokens', 'TokenCategoryHierarchyMapper.valid')]
 
+# ------------------------------------------------------------------ C06.d first call of an interpreter, then the observed exports
+FRESH_REQ = [{'first spine': {'spine_ids': [0], 'cols': [0]}, 'text only': {'spine_types': ['**text'], 'cols': [1]}, 'all': {'cols': [0, 1]}}, {'kern and harm': {'spine_types': ['**kern', '**harm'], 'cols': [0, 2]}, 'second': {'spine_ids': [1], 'cols': [1]}}]
+
+
+def ob_d(pre: int, d: int) -> bool:
+    from sv.ref import fresh
+    assume(0 <= pre < len(fresh.PRELUDES) and 0 <= d < 2)
+    return _d_body(choose(pre, len(fresh.PRELUDES)), choose(d, 2))
+
+
+@native
+def _d_body(pre, d):
+    from sv.ref import fresh, docs as _docs
+    P = _docs.pool()
+    D, other = (P[0], P[1]) if d == 0 else (P[1], P[0])
+    bad = fresh.mismatches(pre, D, other.text(), FRESH_REQ[d])
+    check(not bad, '; '.join(bad)[:1500])
+    return True
+
+
 OBLIGATIONS = [
+    Ob(id='C06.d', fn=ob_d, title='histories from the first call of a fresh interpreter: spine selection is still the column projection',
+       shard_of=lambda pre, d: pre, shards={'quick': 5, 'thorough': 5}, budget_s={'quick': 150, 'thorough': 600}, native_body=True,
+       witnesses=[{'pre': 0, 'd': 0}], min_confirmed=15, enumerated='first call (10 kinds, incl. none), document (2)',
+       realized_at=['fresh python interpreter per history (subprocess)'],
+       bounds={'quick': '10 first calls x 2 pool documents (kern + text with chord / decorations / accidentals; kern + dynam + harm)', 'thorough': 'same'}),
     Ob(id='C06.a', fn=ob_a, title='export under arbitrary spine-id and spine-type sets == column projection',
        shard_of=lambda layout, *a, **k: layout, shards={'quick': 16, 'thorough': 16}, budget_s={'quick': 170, 'thorough': 2400},
        untrace=UNTRACE,
